@@ -1653,7 +1653,10 @@ int expr_cond_constred(expr * value, int * result)
     expr_constred(value->middle, result);
     expr_constred(value->right, result);
 
-    if (value->left->type == EXPR_BOOL)
+    /* the type of a conditional over ranges refers to the element type kept by
+     * one of its branches, and so do the types derived from it: both branches
+     * stay (the conditional is evaluated at run time) */
+    if (value->left->type == EXPR_BOOL && value->comb.comb != COMB_TYPE_RANGE)
     {
         expr * left_value = value->left;
         expr * middle_value = value->middle;
